@@ -37,7 +37,7 @@ try:
 
         def one(c):
             pid = c["property_id"]
-            e = dict(os.environ, VERIF_REPO=WT, VERIF_NO_REPLAY="1", VERIF_NO_BOUNDED="1")
+            e = dict(os.environ, VERIF_REPO=WT, VERIF_NO_BOUNDED="1")   # replay searches stay on: the bounded stand-in for undecided units must not raise alarms either
             for k in ("VERIF_BUILD", "VERIF_EVID", "VERIF_REPLAYS"):
                 e[k] = os.path.join(SCR, k, pid)
                 os.makedirs(e[k], exist_ok=True)
